@@ -17,7 +17,11 @@ RULE = ("exhaustive row CONTENTS (every letter assignment) x every w 1..5, total
         "get_motif_scores / count_kmers / get_minimizers (window >= k), plus flat (1-D) input and ASCII input; random "
         "beyond (k up to 31, rows up to 40 letters); KmerEncoding.encode/to_string on explicit k-mers. Cases whose total "
         "length is below the window are outside the domain. Non-trivial = some row length in {0, w-1, w, w+1}, or w = 1, "
-        "or >= 2 rows")
+        "or >= 2 rows. Also: regex matchers (Masked/FixedLen/RegexMatcher: random patterns of letters, classes, dots and gaps, half of "
+        "them made to occur, also across a row border), get_motif_scores_old / PositionWeightMatrix.rolling_window, PWMs built by "
+        "from_dict / from_counts, sequences encoded over an alphabet that extends / differs from the PWM's, KmerEncoder.inverse, "
+        "count_kmers of the parts of a split collection added up, rolling_window(mode='same'), fresh views as inputs, >= 17 rows, "
+        "codes >= 2^53, call sequences whose results are read after the last call")
 EXHAUSTIVE = {"quick": False, "thorough": False}
 MODEL_OPS = {"kmers", "minimizers", "match", "match_same", "pwm", "pwm_old", "count", "count_add", "kenc", "regex", "fixedregex"}
 PARALLEL = 16
@@ -43,7 +47,10 @@ MANIFEST = {
             "additive structure, rolling_window(mode='same') (values of the fitting windows then zeros, whatever the out-of-buffer "
             "trailing windows return; observed through StringMatcher.rolling_window), k-mer counts as the caller reads them (label -> number of windows spelling it). The 2-bit packed path "
             "(BitArray.pack / sliding_window on uint64 registers: shifts, or, mask) is modelled literally and PROVED equal to the "
-            "generic base-4 hash for every k <= 31 (packedKmers_eq, packed_eq_generic, kmers_dispatch). The refutation of the shipped slice [..., :(-w+1)] at w = 1 is kept. "
+            "generic base-4 hash for every k <= 31 (packedKmers_eq, packed_eq_generic, kmers_dispatch). Regex matchers: class expansion "
+            "into masked exact matchers is sound (expandClasses_sound) and RegexMatcher marks a position iff an expansion fits in the "
+            "row and matches (regex_rowlocal; the shipped code leaked into the next row: regexOld_leaks). Chunk/order independence "
+            "(rolling_chunks, rolling_order, count_chunks), completeness (minimizers_isSome_iff), positional notation (hashLE_eq_sum, hashLE_inj). The refutation of the shipped slice [..., :(-w+1)] at w = 1 is kept. "
             "Correspondence: implementation vs Lean model vs Lean spec vs Python oracle.",
     "note": "IEEE rounding of PWM scores is not modelled (same summation order => bit-identical in practice; compared with a "
             "tolerance). The 2-bit packed k-mer path (npstructures BitArray, outside /repo) is modelled from its source and proved equal to the generic hash; that the installed BitArray behaves as modelled is exercised by the correspondence (register borders at 32/64/96 letters, every k 1..31). int64 wrap for "
